@@ -171,10 +171,10 @@ pub fn view(map: &MemoryMap, offset: usize, item: &Item) -> Result<(usize, usize
     }
 }
 
-// One structure with more than 2^32 set bits (half a gibibyte of ones): counts that no longer fit 32 bits. Thorough tier
-// only (it writes and maps a 512 MiB file).
+// One structure with more than 2^32 set bits (half a gibibyte of ones): counts that no longer fit 32 bits.
 fn four_gibibits(ctx: &mut Ctx) {
-    if cfg!(miri) || ctx.quick() || !ctx.mine(3) || !ctx.begin_case() { return; }
+    // Quick tier: in the release leg only (about ten seconds and a 512 MiB temporary file).
+    if cfg!(miri) || (ctx.quick() && ctx.cfg != "rel") || !(ctx.cfg == "rel" || ctx.cfg == "dbg") || !ctx.mine(3) || !ctx.begin_case() { return; }
     let n: usize = (1usize << 32) + 65_536 + 17;
     let name = format!("{}/vmon-c13-4g-{}-{}", ctx.tmpdir, std::process::id(), ctx.shard);
     let r = guard(|| -> Result<(usize, usize, bool, bool, usize), String> {
